@@ -378,7 +378,7 @@ C12_M = ["ping", "add", "say", "opt", "renamed_method", "ren_param", "watch", "n
 # quick tier: the instances that finish in a few minutes below 4 GB (bool/None-only argument encodings); the others (symbolic
 # three-digit numbers next to a bool: 11 GB, 7-14 min) are thorough-tier only
 C12_QUICK_CHAIN = {"ping", "renamed_method", "get_2fa_code", "opt_none", "ren_param", "watch", "ren_opt_none"}
-C12_QUICK_EXT = {"opt_none", "ren_param", "ren_opt_none"}
+C12_QUICK_EXT = {"opt_none", "ren_param", "ren_opt_none", "renamed_method"}
 C12_ARGS = "arguments symbolic within fixed-width encodings: a: u8 in 100..=255, b: bool, 1 alphanumeric ASCII char as &str; the Option argument is %s"
 for i, mname in enumerate(C12_M):
     for xs in ((False, True) if mname in ("opt", "ren_opt") else (False,)):
